@@ -396,6 +396,13 @@ func c10Run(rep *vh.Report, srv *Server, a *vref.VAsset, asset, d, mode string, 
 			rep.AddTrans(int64(len(ers)))
 			rep.AddExecs(int64(len(ers)) + 1)
 			for _, er := range ers {
+				if cr.Code != 200 && er.Code == cr.Code {
+					// the configuration is refused with and without encryption alike (e.g. an
+					// availabilityTimeOffset that the asset-level segment duration does not allow):
+					// nothing about keys or ciphertext to compare
+					rep.Note("not judged: %s answers %d with and without encryption", eu, cr.Code)
+					continue
+				}
 				if er.Code != 200 || cr.Code != 200 {
 					viol("C10.c", fmt.Sprintf("segment-status-%d-%d:%s", er.Code, cr.Code, r.Kind), fmt.Sprintf("encrypted -> %d, clear -> %d", er.Code, cr.Code), eu)
 					continue
